@@ -4,7 +4,11 @@ import glob, importlib, os, sys
 PROPS = {}
 _REPLAY = {}
 for _f in sorted(glob.glob(os.path.join(os.path.dirname(os.path.abspath(__file__)), "fam_*.py"))):
-    _m = importlib.import_module(os.path.basename(_f)[:-3])
+    try:
+        _m = importlib.import_module(os.path.basename(_f)[:-3])
+    except Exception as _e:          # a broken family must not take the others down
+        sys.stderr.write("warning: family %s not loaded: %r\n" % (os.path.basename(_f), _e))
+        continue
     PROPS.update(getattr(_m, "PROPS", {}))
     if hasattr(_m, "replay"):
         for _fam in getattr(_m, "FAMILIES", []):
